@@ -6,7 +6,7 @@
    least one sink still held.  `active_here s c t`: t names an accepted, not unsubscribed subscription of connection c
    whose handler still holds a sink. *)
 From Coq Require Import List NArith ZArith Bool.
-From JV Require Import Model.AcceptSteps Gen.AcceptOrderGen Model.SubBook Proofs.SubBookFacts.
+From JV Require Import Model.AcceptSteps Gen.AcceptOrderGen Model.TableOps Gen.TableOpsGen Model.SubBook Proofs.SubBookFacts Proofs.SubBookThreadFacts.
 Import ListNotations.
 
 Theorem C06_unsubscribe_truth_table : forall caps base meth tr c cn req t, let s := fst (reach caps base meth tr) in nth_error (conns s) c = Some cn -> c_open cn = true -> stopped s = false -> exists r, snd (step s (UnsubscribeCall c req t)) = [OUnsubAnswer c req t r] /\ (r = true <-> active_here s c t) /\ (exists cn', nth_error (conns (fst (step s (UnsubscribeCall c req t)))) c = Some cn' /\ sent cn' = sent cn ++ [FUnsub req r]).
@@ -67,4 +67,31 @@ Definition ex_abandon : list act :=
   [SubscribeCall 0 1; AbandonCall 0 true; Accept1 0; UnsubscribeCall 0 2 1000; SubscribeCall 0 3; Accept1 1; Accept2 1].
 
 Example C06_failed_accept_witness : let r := reach [1] 1000 0 ex_abandon in snd r = [OHandler 0 0 1; OAck; OAccept 0 false; OUnsubAnswer 0 2 1000 false; OHandler 1 0 3; OAck; OAccept 1 true] /\ table (fst r) = [(0, 1001%N)] /\ map sent (conns (fst r)) = [[FErr 1 EAbandoned; FSubOk 1 1000; FUnsub 2 false; FSubOk 3 1001]] /\ count_live (fst r) 0 = 1 /\ snd (step (fst (reach [1] 1000 0 [SubscribeCall 0 1; AbandonCall 0 true])) (SubscribeCall 0 9)) = [ORefused 0 9] /\ AcceptOrderGen.accept_steps = [AcceptSteps.ASendToSink; AcceptSteps.ANotifyCall; AcceptSteps.ATableInsert; AcceptSteps.ABuildSink].
+Proof. vm_compute. repeat split. Qed.
+
+(* ---- REAL threads on the shared subscriber table.  Every site that touches the per-method `Subscribers` table (accept's
+   insert, the unsubscribe callback's remove, SubscriptionGuard::drop's remove) is read from
+   core/src/server/{subscription,rpc_module}.rs on every check (tools/translators/table_ops.py ->
+   Gen/TableOpsGen.table_ops_gen) as `TLockThen op` (blocking lock(), operation unconditional) or `TTryLockThen op`
+   (operation skipped when another thread holds the mutex).  Thread-level traces are lists of `(act, contended)`:
+   `reach_c` / `step_c` interpret the generated record, a contended event at a TTryLockThen site skips its table operation.
+   C06_table_ops_unconditional: every generated site is TLockThen, HENCE the contended bits change nothing and the
+   truth table holds for all thread-level traces.  With a try_lock at any site the first conjunct is false by
+   computation and the proof does not build; C06_trylock_guard_refuted shows what the bit then lets through. ---- *)
+Theorem C06_table_ops_unconditional : (TableOpsGen.table_ops_gen = table_ops_locked /\ Forall (fun a => exists op, a = TLockThen op) (sites_of TableOpsGen.table_ops_gen)) /\ (forall caps base meth (tr : list cact), reach_c caps base meth tr = reach caps base meth (map fst tr)) /\ (forall caps base meth (tr : list cact) contended c cn req t, let s := fst (reach_c caps base meth tr) in nth_error (conns s) c = Some cn -> c_open cn = true -> stopped s = false -> exists r, snd (step_c s (UnsubscribeCall c req t, contended)) = [OUnsubAnswer c req t r] /\ (r = true <-> active_here s c t) /\ (exists cn', nth_error (conns (fst (step_c s (UnsubscribeCall c req t, contended)))) c = Some cn' /\ sent cn' = sent cn ++ [FUnsub req r])).
+Proof. exact table_ops_unconditional. Qed.
+Print Assumptions C06_table_ops_unconditional.
+
+Theorem C06_cap_under_contention : forall caps base meth (tr : list cact) c cn, let s := fst (reach_c caps base meth tr) in nth_error (conns s) c = Some cn -> count_live s c + c_permits cn = c_cap cn /\ count_live s c <= c_cap cn.
+Proof. exact cap_respected_contended. Qed.
+Print Assumptions C06_cap_under_contention.
+
+(* the hypothetical "never block in Drop" guard: one contended drop of the last sink, and unsubscribe answers true for a
+   subscription that is not active (its slot is back, its entry is not); the same trace under blocking locks answers false *)
+Theorem C06_trylock_guard_refuted : let s := fst (run_x table_ops_trylock_guard (init [1] 1000 0) trylock_witness) in (exists cn, nth_error (conns s) 0 = Some cn /\ c_open cn = true /\ c_permits cn = c_cap cn) /\ stopped s = false /\ snd (step_x table_ops_trylock_guard false s (UnsubscribeCall 0 2 1000)) = [OUnsubAnswer 0 2 1000 true] /\ ~ active_here s 0 1000 /\ count_live s 0 = 0 /\ table s = [(0, 1000%N)] /\ fst (run_x table_ops_locked (init [1] 1000 0) trylock_witness) = fst (run (init [1] 1000 0) (map fst trylock_witness)) /\ snd (step_x table_ops_locked false (fst (run_x table_ops_locked (init [1] 1000 0) trylock_witness)) (UnsubscribeCall 0 2 1000)) = [OUnsubAnswer 0 2 1000 false].
+Proof. exact trylock_guard_refuted. Qed.
+Print Assumptions C06_trylock_guard_refuted.
+
+(* non-vacuity of the thread-level alphabet on the generated record: a contended drop of the last sink removes the entry *)
+Example C06_contended_drop_witness : let r := reach_c [1] 1000 0 trylock_witness in table (fst r) = [] /\ snd (step_c (fst r) (UnsubscribeCall 0 2 1000, true)) = [OUnsubAnswer 0 2 1000 false] /\ snd (step_c (fst r) (SubscribeCall 0 3, true)) = [OHandler 1 0 3].
 Proof. vm_compute. repeat split. Qed.
